@@ -99,6 +99,7 @@ func (g *Gen) Str(d int) string {
 		func(d int) string { return `$base64decode($base64encode(` + g.Str(d) + `))` },
 		func(d int) string { return `$decodeUrlComponent($encodeUrlComponent(` + g.Str(d) + `))` },
 		func(d int) string { return `$encodeUrl(` + g.Str(d) + `)` },
+		func(d int) string { return `$decodeUrl($encodeUrl(` + g.Str(d) + `))` },
 		func(d int) string { return `$type(` + g.Any(d) + `)` },
 		func(d int) string { return `$fromMillis(` + g.Num(d) + ` * 1000)` },
 		func(d int) string { return `$fromMillis(` + g.Num(d) + ` * 86400000, "[Y0001]-[M01]-[D01]")` },
